@@ -101,7 +101,7 @@ func init() {
 		return clusterCheckSched(prop, tier, p, []string{"leader_present", "restarted_node_up"}, append([]string{"HANDLER suites hv*: one real node booted from preloaded storage, two puppet peers, every event sequence up to 4 (quick) / 5 (thorough) steps over RequestVote/AppendEntries/InstallSnapshot injections (terms T-1..T+1, both candidates, older/equal/newer logs, prevote or real, clock elapsed or not), own timeouts, every answer to its own requests, crash at quiescent points and armed at storage-call boundaries, restart"}, untimedAssumptions...), nil, sp)
 	}
 	checks["C09"] = func(prop, tier string) int {
-		p := []plan{{"mem1-d4", 40}, {"mem2-d3", 50}, {"mem3-d2", 60}, {"memlead3-d2", 80}, {"nvsnaplease4-d3", 40}, {"nvlease5-d4", 30}}
+		p := []plan{{"mem1-d4", 40}, {"mem2-d3", 50}, {"mem3-d2", 60}, {"memlead3-d2", 80}, {"nvsnaplease4-d3", 40}, {"nvlease5-d4", 30}, {"memsnap3-d2", 70}}
 		if tier == "thorough" {
 			p = []plan{{"mem1-d5", 200}, {"mem2-d4", 400}, {"mem3-d3", 500}, {"mem3-d4", 900}, {"memlead3-d3", 700}, {"nvsnaplease4-d5", 400}, {"nvlease5-d5", 200}}
 		}
@@ -109,7 +109,7 @@ func init() {
 		if tier == "thorough" {
 			sp = []schedPlan{{"mem-race", 3, 300}}
 		}
-		return clusterCheckSched(prop, tier, p, []string{"leader_present", "op_acked", "config_changed"}, append([]string{"suites nvsnaplease4 / nvlease5 (timed, lease reads at a leader that reaches only non-voting members): a non-voter must not contribute to a leadership confirmation; reported here as C17/..."}, untimedAssumptions...), []string{"C01", "C02", "C07", "C17"}, sp)
+		return clusterCheckSched(prop, tier, p, []string{"leader_present", "op_acked", "config_changed"}, append([]string{"suites nvsnaplease4 / nvlease5 (timed, lease reads at a leader that reaches only non-voting members): a non-voter must not contribute to a leadership confirmation; reported here as C17/...", "suite memsnap3 (membership changes with snapshots): a snapshot must carry the configuration committed at its label, otherwise a node restored from it applies a configuration sequence of its own (reported here as C10/snapshot-wrong-configuration)"}, untimedAssumptions...), []string{"C01", "C02", "C07", "C17", "C10:snapshot-wrong-configuration"}, sp)
 	}
 	checks["C16"] = func(prop, tier string) int {
 		p := []plan{{"sticky3r0-d3", 60}, {"sticky3r1-d2", 50}, {"sticky3r2-d2", 50}, {"rejoin3r0-d4", 30}, {"rejoin3r1-d4", 30}, {"rejoin3r2-d4", 30}, {"stickysnap3-d4", 30}, {"contested3r0-d3", 30}, {"contested3r1-d3", 30}, {"contested3r2-d3", 30}, {"removed3-d4", 30}}
